@@ -26,6 +26,7 @@ type StreamingState struct {
 	inputTokens      int
 	outputTokens     int
 	messageStartSent bool
+	sawStreamData    bool // a chunk that parsed, or the [DONE] marker: the backend did send a completion stream
 }
 
 // convert openai sse stream to anthropic format
@@ -49,6 +50,18 @@ func (t *Translator) TransformStreamingResponse(ctx context.Context, openaiStrea
 
 	if streamErr != nil {
 		return streamErr
+	}
+
+	// a body without a single parsable chunk and without [DONE] is not a completion stream at all
+	// (a JSON object, a truncated document, an HTML page): nothing has been written yet, so report
+	// it as a failure rather than make up an empty message for it
+	if !state.messageStartSent && !state.sawStreamData {
+		// the stream headers set above were never sent: take them back so that the caller
+		// can still answer with an error status
+		w.Header().Del(constants.HeaderContentType)
+		w.Header().Del("Cache-Control")
+		w.Header().Del("Connection")
+		return fmt.Errorf("backend response is not a chat completion stream")
 	}
 
 	// send message_start even if stream was empty
@@ -107,6 +120,7 @@ func (t *Translator) processStreamLine(line string, state *StreamingState, w htt
 
 	data := strings.TrimPrefix(line, "data: ")
 	if strings.TrimSpace(data) == "[DONE]" {
+		state.sawStreamData = true
 		return nil
 	}
 
@@ -117,6 +131,8 @@ func (t *Translator) processStreamLine(line string, state *StreamingState, w htt
 			"data", util.TruncateString(data, util.DefaultTruncateLengthPII), "data_len", len(data))
 		return nil
 	}
+
+	state.sawStreamData = true
 
 	// grab model name for message_start event
 	if state.model == "" {
